@@ -342,10 +342,11 @@ fn issue(w: &mut World, step: usize) {
       o.insert("credentialStatus".into(), bad);
     }
     4 => {
-      // points at a service that does not exist in the issuer document
+      // points at a service that does not exist in the issuer document, or at one that is not a bitmap service
+      let frag_s = if ctx::choose(2) == 0 { "nosuchservice" } else { "notabitmap" };
       o.insert(
         "credentialStatus".into(),
-        serde_json::json!({"id": format!("{}#nosuchservice", p.did), "type": "RevocationBitmap2022", "revocationBitmapIndex": "3"}),
+        serde_json::json!({"id": format!("{}#{frag_s}", p.did), "type": "RevocationBitmap2022", "revocationBitmapIndex": "3"}),
       );
     }
     _ => {}
@@ -354,7 +355,7 @@ fn issue(w: &mut World, step: usize) {
   let truth = serde_json::to_value(&cred).unwrap();
   let mut opts = JwsSignatureOptions::default();
   let nonce = if ctx::chance(1, 3) {
-    let n = format!("n{}", ctx::choose(1000));
+    let n = if ctx::chance(1, 8) { String::new() } else { format!("n{}", ctx::choose(1000)) };
     opts = opts.nonce(n.clone());
     Some(n)
   } else {
@@ -506,7 +507,7 @@ fn present(w: &mut World, step: usize) {
   };
   let mut sopts = JwsSignatureOptions::default();
   let nonce = if ctx::choose(3) != 0 {
-    let n = format!("challenge{}", ctx::choose(1000));
+    let n = if ctx::chance(1, 10) { String::new() } else { format!("challenge{}", ctx::choose(1000)) };
     sopts = sopts.nonce(n.clone());
     Some(n)
   } else {
@@ -555,7 +556,7 @@ fn present_crafted(w: &mut World, step: usize) {
     return;
   }
   let (frag, _) = p.methods[ctx::choose(p.methods.len())].clone();
-  let kind = ["holder_mismatch", "id_mismatch", "exp_out_of_range", "iss_not_did", "vp_id_without_jti", "nbf_and_iat"][ctx::choose(6)];
+  let kind = ["holder_mismatch", "id_mismatch", "exp_out_of_range", "iss_not_did", "vp_id_without_jti", "nbf_and_iat", "kid_names_no_did_of_the_document"][ctx::choose(7)];
   let now_h = w.clock.now + w.parties[h].skew;
   let mut claims = serde_json::json!({
     "iss": p.did,
@@ -574,11 +575,25 @@ fn present_crafted(w: &mut World, step: usize) {
       claims["nbf"] = Value::from(now_h + 300);
       claims["iat"] = Value::from(now_h - 300);
     }
+    "kid_names_no_did_of_the_document" => {}
     _ => claims["iss"] = "https://holder.example/".into(),
   }
   let mut sopts = JwsSignatureOptions::default();
+  if kind == "kid_names_no_did_of_the_document" {
+    // a Byzantine holder signs with its own key but writes a kid whose part before '#' is NOT the document's DID
+    // (another DID, or a string that is no DID at all) while the fragment is that of its own method
+    let kid = match ctx::choose(5) {
+      0 => format!("did:Example:someone-else#{frag}"),
+      1 => format!("did:sim:#{frag}"),
+      2 => format!("{}+evil#{frag}", p.did),
+      3 => format!("did::x#{frag}"),
+      _ => format!("did:sim:someoneelse#{frag}"),
+    };
+    sopts = sopts.kid(kid);
+    ctx::stat("fault.holder.kid_with_foreign_or_malformed_did");
+  }
   let nonce = if ctx::choose(2) == 0 {
-    let n = format!("challenge{}", ctx::choose(1000));
+    let n = if ctx::chance(1, 10) { String::new() } else { format!("challenge{}", ctx::choose(1000)) };
     sopts = sopts.nonce(n.clone());
     Some(n)
   } else {
@@ -852,10 +867,11 @@ fn validate_credential(w: &mut World, step: usize) {
   let Some(sup) = resolve(w, supply_party) else { return };
   // ---- options ----
   let mut vopts = JwsVerificationOptions::default();
-  let opt_nonce: Option<String> = match ctx::weighted(&[6, 1, 1]) {
+  let opt_nonce: Option<String> = match ctx::weighted(&[12, 2, 2, 1]) {
     0 => t.nonce.clone(),
     1 => Some("othernonce".to_owned()),
-    _ => None,
+    2 => None,
+    _ => Some(String::new()), // the empty string is a nonce; an absent nonce is not
   };
   if let Some(n) = &opt_nonce {
     vopts = vopts.nonce(n.clone());
@@ -1146,7 +1162,17 @@ fn validate_credential(w: &mut World, step: usize) {
                 .json
                 .get("service")
                 .and_then(|s| s.as_array())
-                .map(|a| a.iter().any(|s| s.get("id").and_then(|i| i.as_str()) == Some(sid.as_str())))
+                .map(|a| {
+                  a.iter().any(|s| {
+                    // the issuer's bitmap service: that id AND the RevocationBitmap2022 type (alone or among several)
+                    let is_bitmap_type = match s.get("type") {
+                      Some(Value::String(t)) => t == "RevocationBitmap2022",
+                      Some(Value::Array(ts)) => ts.iter().any(|t| t.as_str() == Some("RevocationBitmap2022")),
+                      _ => false,
+                    };
+                    s.get("id").and_then(|i| i.as_str()) == Some(sid.as_str()) && is_bitmap_type
+                  })
+                })
                 .unwrap_or(false);
               if !service_in_doc {
                 units.push("ServiceLookupError");
@@ -1329,10 +1355,11 @@ fn validate_presentation(w: &mut World, step: usize) {
   let victim_kid = parse_compact(&t.s)
     .and_then(|p| p.header.get("kid").and_then(|k| k.as_str().map(str::to_owned)))
     .unwrap_or_default();
-  let victim_kid_full = if victim_kid.starts_with("did:") {
+  let victim_kid_full = if victim_kid.starts_with("did:") && DIDUrl::parse(&victim_kid).is_ok() {
     victim_kid.clone()
   } else {
-    format!("{}#{}", w.parties[holder_party].did, victim_kid.trim_start_matches('#'))
+    // (a kid that is no DID URL at all: the verifier would name the holder's method of that fragment)
+    format!("{}#{}", w.parties[holder_party].did, victim_kid.rsplit('#').next().unwrap_or(""))
   };
   let (delivered, mv) = deliver(w, &t.s, Some(&other), &victim_kid_full);
   let supply_party = match ctx::weighted(&[10, 1, 1]) {
@@ -1342,10 +1369,11 @@ fn validate_presentation(w: &mut World, step: usize) {
   };
   let Some(sup) = resolve(w, supply_party) else { return };
   let mut vopts = JwsVerificationOptions::default();
-  let opt_nonce: Option<String> = match ctx::weighted(&[6, 1, 1]) {
+  let opt_nonce: Option<String> = match ctx::weighted(&[12, 2, 2, 1]) {
     0 => t.nonce.clone(),
     1 => Some("replayed-elsewhere".to_owned()),
-    _ => None,
+    2 => None,
+    _ => Some(String::new()), // the empty string is a nonce; an absent nonce is not
   };
   if let Some(n) = &opt_nonce {
     vopts = vopts.nonce(n.clone());
@@ -1473,7 +1501,7 @@ fn validate_presentation(w: &mut World, step: usize) {
                       want = Some("IssuanceDate");
                       label = "issuance_date";
                       ctx::stat("false.p.issuance_date");
-                    } else if tp.crafted.is_some() && tp.crafted != Some("nbf_and_iat") {
+                    } else if tp.crafted.is_some() && !matches!(tp.crafted, Some("nbf_and_iat") | Some("kid_names_no_did_of_the_document")) {
                       // disagreeing duplicated values / numeric date outside years 0000-9999
                       want = Some("PresentationStructure");
                       label = "structure";
@@ -1805,6 +1833,25 @@ pub fn run(prop: &str, _params: &Params) {
         };
         if ok {
           w.cur_bitmaps[i].insert(sid, BTreeSet::new());
+        }
+      }
+    }
+  }
+  // a service of ANOTHER type whose endpoint happens to be a well-formed bitmap data URL: not a revocation service
+  for i in 0..w.n_issuers {
+    if ctx::choose(3) == 0 {
+      let sid = format!("{}#notabitmap", w.parties[i].did);
+      if let Ok(svc) = RevocationBitmap::new().to_service(DIDUrl::parse(&sid).unwrap()) {
+        let mut sj = serde_json::to_value(&svc).unwrap();
+        sj["type"] = if ctx::choose(2) == 0 { "LinkedDomains".into() } else { serde_json::json!(["CredentialRegistry", "SimBlob"]) };
+        if let Ok(decoy) = identity_document::service::Service::from_json_value(sj) {
+          let ok = match &mut w.parties[i].doc {
+            AnyDoc::Core(d) => d.insert_service(decoy).is_ok(),
+            AnyDoc::Iota(d) => d.insert_service(decoy).is_ok(),
+          };
+          if ok {
+            ctx::stat("probe.non_bitmap_service_with_bitmap_endpoint");
+          }
         }
       }
     }
